@@ -41,6 +41,7 @@ from funsor.typing import GenericTypeMeta, Variadic, deep_type, get_args, get_or
 from funsor.util import getargspec, lazy_property, pretty, quote, register_pprint
 
 from . import instrument, interpreter, ops
+from . import _verif  # isort:skip
 
 _PREFIX = {k: v for v, k, _ in PREFIX_OPERATORS}
 _INFIX = {k: v for v, k, _ in INFIX_OPERATORS}
@@ -770,6 +771,10 @@ class Funsor(object, metaclass=FunsorMeta):
                 part = to_funsor(part, Bint[result.output.shape[offset]])
                 result = Binary(GetitemOp(offset), result, part)
         return result
+
+
+if _verif.ENABLED:  # verification hook, off by default
+    Funsor.__hash__ = _verif.seeded_identity_hash
 
 
 @quote.register(Funsor)
